@@ -56,3 +56,40 @@ fn(VC + '._compute_adjacent_cell', properties=['C03'],
                              'all(implies(k in self._adjC2C, 0 <= k[0] and k[0] <= it0 and 0 <= k[1] and k[1] < 4 and implies(k[0] == it0, k[1] <= iF)) for k in self._adjC2C)'])},
    ensures=['self._adjC2C is not None',
             'all(all(c2c_ok(self._adjC2C, self.mesh.cells._data, c, i) for i in range(4)) for c in range(len(self.mesh.cells._data)))'])
+
+# ---------------------------------------------------------------- cell -> face table of the raw data (tetrahedra)
+# RawMeshData._generate_cell_faces: "the i-th face of a cell is the one opposite its i-th vertex", proved on the generator of the table.
+RMD = 'mouette.mesh.mesh_data.RawMeshData'
+klass('TriContainer', real='mouette.mesh.data_container.DataContainer', fields={'_data': 'list[tuple[int,int,int]]', '_attr': 'dict[str,AttrRec]', 'id': 'str'})
+klass('TetRaw', real=RMD, fields={'faces': 'TriContainer', 'cells': 'RContainer', 'cell_faces': 'CornerContainer'})
+predicate('opp0', 'c', '(c[1], c[3], c[2])')
+predicate('opp1', 'c', '(c[0], c[2], c[3])')
+predicate('opp2', 'c', '(c[3], c[1], c[0])')
+predicate('opp3', 'c', '(c[0], c[1], c[2])')
+predicate('is_face_of', 'fs, f, t', '0 <= f and f < len(fs) and keyify(fs[f]) == keyify(t)')
+predicate('cf_ok', 'cf, fs, cells, c', '''cf._adj[4*c] == c and cf._adj[4*c + 1] == c and cf._adj[4*c + 2] == c and cf._adj[4*c + 3] == c
+    and is_face_of(fs, cf._elem[4*c], opp0(cells[c])) and is_face_of(fs, cf._elem[4*c + 1], opp1(cells[c]))
+    and is_face_of(fs, cf._elem[4*c + 2], opp2(cells[c])) and is_face_of(fs, cf._elem[4*c + 3], opp3(cells[c]))''')
+predicate('fid_ok', 'face_id, fs, upto', '''all((keyify(fs[f]) in face_id) and face_id[keyify(fs[f])] == f for f in range(upto))
+    and all(0 <= face_id[k] and face_id[k] < upto and keyify(fs[face_id[k]]) == k for k in face_id)''')
+
+fn(RMD + '._generate_cell_faces', properties=['C03'], params={'self': 'TetRaw'},
+   locals={'face_id': 'dict[tuple[int,int,int],int]'},
+   requires=['len(self.cell_faces._elem) == 0', 'len(self.cell_faces._adj) == 0', 'len(self.cell_faces._attr) == 0',
+             'all(len(self.cells._data[c]) == 4 for c in range(len(self.cells._data)))',
+             # a shared face is stored once
+             'all(all(implies(f != g, keyify(self.faces._data[f]) != keyify(self.faces._data[g])) for g in range(len(self.faces._data))) for f in range(len(self.faces._data)))',
+             # faces were completed from cells: the four faces of every tetrahedron are in the face list
+             'all(any(keyify(self.faces._data[f]) == keyify(opp0(self.cells._data[c])) for f in range(len(self.faces._data))) '
+             '    and any(keyify(self.faces._data[f]) == keyify(opp1(self.cells._data[c])) for f in range(len(self.faces._data))) '
+             '    and any(keyify(self.faces._data[f]) == keyify(opp2(self.cells._data[c])) for f in range(len(self.faces._data))) '
+             '    and any(keyify(self.faces._data[f]) == keyify(opp3(self.cells._data[c])) for f in range(len(self.faces._data))) for c in range(len(self.cells._data)))'],
+   modifies=['self.cell_faces._elem', 'self.cell_faces._adj'],
+   loops={0: loop(invariant=['len(self.cell_faces._elem) == 0', 'len(self.cell_faces._adj) == 0', 'len(self.cell_faces._attr) == 0',
+                             'fid_ok(face_id, self.faces._data, it0)']),
+          1: loop(invariant=['len(self.cell_faces._elem) == 4*it1', 'len(self.cell_faces._adj) == 4*it1', 'len(self.cell_faces._attr) == 0',
+                             'fid_ok(face_id, self.faces._data, len(self.faces._data))',
+                             'all(cf_ok(self.cell_faces, self.faces._data, self.cells._data, c) for c in range(it1))'])},
+   # four records per tetrahedron, in cell order; record 4c+i is owned by c and names the face opposite the i-th vertex of c
+   ensures=['len(self.cell_faces._elem) == 4*len(self.cells._data)', 'len(self.cell_faces._adj) == 4*len(self.cells._data)',
+            'all(cf_ok(self.cell_faces, self.faces._data, self.cells._data, c) for c in range(len(self.cells._data)))'])
